@@ -115,10 +115,12 @@ def main():
     count = int(sys.argv[2]) if len(sys.argv) > 2 else 300
     rng = random.Random(seed)
     st_rows, cert_rows, dyn_rows, fw_rows = [], [], [], []
+    fws_py = []
     hist = {0: 0, 1: 0, 2: 0}
     for k in range(count):
         n, rel = framework(rng)
         fw_rows.append("(%d, %s)" % (n, coq_list("(%d, %d)" % p for p in rel)))
+        fws_py.append((n, rel))
         for si, sem in enumerate(SEMS):
             for qi, q in enumerate(("DC", "DS")):
                 lists = [[rng.randrange(n)] for _ in range(2)]
@@ -142,8 +144,31 @@ def main():
                     d = decided(dc.dyn_poly_verdict(dyn_case(n, rel, sem, q, lab, "YES")),
                                 dc.dyn_poly_verdict(dyn_case(n, rel, sem, q, lab, "NO")))
                     dyn_rows.append("(%d, %d, %d, %d, %d)" % (k, si, qi, lab, d))
+    # ---- the classes rule of checks/C19.py (grounded_classes_verdict): G and D are whole classes, the other arguments are
+    # paired at random; python reports a cut iff some seed of a merged class generates a closure that cuts some class
+    import C19 as c19
+    cls_rows = []
+    rng2 = random.Random(seed + 1)
+    for k, (n, rel) in enumerate(fws_py):
+        G = set(grounded(n, rel))
+        D = {b for (a, b) in rel if a in G}
+        rest = [a for a in range(n) if a not in G and a not in D]
+        rng2.shuffle(rest)
+        classes = [sorted(G)] if G else []
+        if D:
+            classes.append(sorted(D))
+        while rest:
+            take = rng2.choice([1, 2, 2, 3])
+            classes.append(sorted(rest[:take]))
+            rest = rest[take:]
+        parsed = {"classes": frozenset(frozenset(c) for c in classes)}
+        v = c19.grounded_classes_verdict(n, rel, parsed)
+        if v is not None and "is cut by" not in v:
+            raise RuntimeError("unexpected verdict on whole grounded classes: " + v)
+        seeds = [s_ for c in classes if len(c) >= 2 and not (set(c) & G) and not (set(c) & D) for s_ in c]
+        cls_rows.append("(%d, %s, %s, %s)" % (k, coq_list(seeds), coq_list(coq_list(c) for c in classes), "true" if v is not None else "false"))
     v = """From Coq Require Import List Arith Bool.
-From Crusta Require Import Spec.AF Spec.SemFacts Spec.Theory Proofs.PolyOracleDefs.
+From Crusta Require Import Spec.AF Spec.SemFacts Spec.Theory Proofs.PolyOracleDefs Proofs.PolyClassesDefs.
 Import ListNotations.
 Definition fws : list (nat * list (nat * nat)) := %s.
 Definition fw (k : nat) : af := let p := nth k fws (0, []) in compact (fst p) (snd p).
@@ -161,18 +186,22 @@ Definition dyn_bad := filter (fun r => match r with (k, s, q, a, d) =>
   negb (Nat.eqb (code (dyn_poly_status (fw k) (sem_of s) (q_of q) a)) d) end) dyn_rows.
 Definition prop_bad := filter (fun k => let F := fw k in let (G, D) := prop_ground F in
   negb (seteqb G (lfp F) && forallb (fun a => Bool.eqb (memb a D) (defeatedb F a)) (args F))) (seq 0 (length fws)).
-Eval vm_compute in (st_bad, cert_bad, dyn_bad, prop_bad).
-""" % (coq_list(fw_rows), coq_list(st_rows), coq_list(cert_rows), coq_list(dyn_rows))
+Definition cls_rows : list (nat * list nat * list (list nat) * bool) := %s.
+Definition cls_bad := filter (fun r => match r with (k, seeds, cls, d) =>
+  negb (Bool.eqb (existsb (fun s => existsb (fun C => cut_by_closure (fw k) (lfp (fw k)) s C) cls) seeds) d) end) cls_rows.
+Eval vm_compute in (st_bad, cert_bad, dyn_bad, prop_bad, cls_bad).
+""" % (coq_list(fw_rows), coq_list(st_rows), coq_list(cert_rows), coq_list(dyn_rows), coq_list(cls_rows))
     d = os.path.join(ROOT, "coq", "scratch")
     os.makedirs(d, exist_ok=True)
     open(os.path.join(d, "poly_compare.v"), "w").write(v)
     p = subprocess.run("timeout 1200 coqc -Q theories Crusta scratch/poly_compare.v", shell=True, cwd=os.path.join(ROOT, "coq"),
                        stdout=subprocess.PIPE, stderr=subprocess.STDOUT, universal_newlines=True)
     out = " ".join(p.stdout.split())
-    ok = p.returncode == 0 and "= ([], [], [], [])" in out
+    ok = p.returncode == 0 and "= ([], [], [], [], [])" in out
     print("cert rows accepted by python: %d" % sum(1 for r in cert_rows if r.endswith("true)")))
-    print("frameworks %d, status decisions %d (undecided %d, NO %d, YES %d), returned sets %d, dynamic decisions %d: %s"
-          % (count, len(st_rows), hist[0], hist[1], hist[2], len(cert_rows), len(dyn_rows), "all equal" if ok else "DIFFERENCE"))
+    print("frameworks %d, status decisions %d (undecided %d, NO %d, YES %d), returned sets %d, dynamic decisions %d: %s (class partitions %d, cut %d)"
+          % (count, len(st_rows), hist[0], hist[1], hist[2], len(cert_rows), len(dyn_rows), "all equal" if ok else "DIFFERENCE",
+             len(cls_rows), sum(1 for r in cls_rows if r.endswith("true)"))))
     if not ok:
         print(p.stdout[-3000:])
         sys.exit(1)
